@@ -1313,7 +1313,9 @@ class Interp:
         if self.on_call is not None and (depth == 0 or self.hooks_all_depths):
             bound = self._bind(f, args, kws)
             self.on_call(c, f, bound, st, fn)
-        if depth != 0:
+        if depth != 0 and not (depth <= 2 and fn.name.startswith("__") and not fn.name.endswith("__")):
+            # obligations are recorded for the entry function itself - and inside name-private helpers it calls (a construction
+            # that was moved into a `__helper` is decided in the context of each caller, where its arguments are known)
             return
         pres = [(p, b) for (q, p), b in self.C.pre.items() if q == f.qual]
         if not pres:
